@@ -23,11 +23,23 @@ static uint64_t seed, rs; static uint64_t rnd(void){ rs += 0x9E3779B97F4A7C15ull
 static atomic_int viol; static char vmsg[300];
 static void fail(const char *m, long a, long b, long c){ if(!atomic_exchange(&viol,1)) snprintf(vmsg,sizeof vmsg,"%s %ld %ld %ld",m,a,b,c); }
 static volatile int g_it;
+// ---- the readiness source of the read stream: every successful suspension / resumption of it (compare-and-swap of _dispatch_lane_suspend /
+// _dispatch_lane_resume on its dq_state) is recorded from the moment its address is known (it exists and is armed then) and
+// replayed through StreamP.srcReplay (dvdriver streamsrc): the transitions alternate.
+extern dispatch_source_t _dispatch_verif_io_stream_source(dispatch_io_t channel, int direction);
+extern volatile void *_dispatch_verif_queue_state_addr(dispatch_queue_t dq);
+#define MAXT (1<<18)
+static struct { int it; char k; } tlog[MAXT]; static atomic_ulong ntl; static volatile void *SRC;
+static void src_rec(const volatile void *addr, int op, const char *func){ if(addr!=SRC || !SRC || op!=3) return;
+  char k = !strcmp(func,"_dispatch_lane_suspend") ? 's' : !strcmp(func,"_dispatch_lane_resume") ? 'r' : 0; if(!k) return;
+  unsigned long i=atomic_fetch_add(&ntl,1); if(i<MAXT){ tlog[i].it=g_it; tlog[i].k=k; } }
+static void src_watch(dispatch_io_t ch){ dispatch_source_t s=_dispatch_verif_io_stream_source(ch,0); SRC = s ? _dispatch_verif_queue_state_addr((dispatch_queue_t)s) : NULL;
+  if(SRC){ unsigned long i=atomic_fetch_add(&ntl,1); if(i<MAXT){ tlog[i].it=g_it; tlog[i].k='A'; } } }       // 'A': recording begins, the source is armed
 // the thread that runs the stream's handler for a fired readiness source is delayed for a moment when it suspends the source (its
 // first step): the stop and the second channel's reads are then queued behind it before it asks for the handler again
 typedef void (*cb_t)(const volatile void *addr, unsigned size, int op, uint64_t o, uint64_t n, const char *func, int line);
 extern cb_t _dispatch_verif_atomic_cb; static __thread uint64_t trng; static pthread_t main_th; static atomic_long holds;
-static void cb(const volatile void *addr, unsigned size, int op, uint64_t o, uint64_t n, const char *func, int line){ (void)addr;(void)size;(void)o;(void)n;(void)line;
+static void cb(const volatile void *addr, unsigned size, int op, uint64_t o, uint64_t n, const char *func, int line){ (void)size;(void)o;(void)n;(void)line; src_rec(addr,op,func);
   if(op!=3 || strcmp(func,"_dispatch_lane_suspend") || pthread_equal(pthread_self(),main_th)) return;
   if(!trng) trng=0x9e3779b97f4a7c15ull^(uint64_t)(uintptr_t)&trng; trng^=trng<<13; trng^=trng>>7; trng^=trng<<17;
   (void)trng; }
@@ -42,7 +54,7 @@ static long iteration(int it){ int p[2]; if(pipe(p)) return 0; g_it=it; fcntl(p[
   struct op *O=calloc(NOP,sizeof *O); int na=1+(int)(rnd()%3), nb=1+(int)(rnd()%4); size_t len=4+(size_t)(rnd()%12);
   for(int i=0;i<na+nb;i++){ struct op *o=&O[i]; dispatch_io_t ch = i<na?A:B;
     if(i==na){ // the first channel's reads are in flight: some data, then the stop, then the second channel's reads right behind it
-      char buf[64]; memset(buf,'a',sizeof buf); size_t w=(rnd()%3) ? len+(size_t)(rnd()%3) : (size_t)(rnd()%(len+3)); usleep((useconds_t)(100+rnd()%300)); if(w && write(p[1],buf,w)<0){}
+      char buf[64]; memset(buf,'a',sizeof buf); size_t w=(rnd()%3) ? len+(size_t)(rnd()%3) : (size_t)(rnd()%(len+3)); usleep((useconds_t)(100+rnd()%300)); src_watch(A); if(w && write(p[1],buf,w)<0){}
       { struct timespec t0,t1; long spin=(long)(rnd()%90000); clock_gettime(CLOCK_MONOTONIC,&t0); do clock_gettime(CLOCK_MONOTONIC,&t1); while((t1.tv_sec-t0.tv_sec)*1000000000l+(t1.tv_nsec-t0.tv_nsec)<spin); }      // 0-90 us: the readiness event and the stop race to the stream's queue
       dispatch_io_close(A,DISPATCH_IO_STOP); }
     dispatch_io_read(ch,0,len,hq,^(bool done, dispatch_data_t d, int e){ if(atomic_load(&o->done)) atomic_fetch_add(&o->calls_after_done,1);
@@ -60,15 +72,14 @@ static long iteration(int it){ int p[2]; if(pipe(p)) return 0; g_it=it; fcntl(p[
     if(atomic_load(&O[i].bytes)>(long)len) fail("a read delivered more than its length: iteration/operation/bytes",it,i,atomic_load(&O[i].bytes)); }
   dispatch_io_close(B,0); dispatch_release(A); dispatch_release(B);
   for(int c=0;c<2 && !viol;c++) if(dispatch_semaphore_wait(cs,dispatch_time(DISPATCH_TIME_NOW,10ll*1000000000ll))) fail("a cleanup handler never ran (10 s): iteration",it,0,0);
-  close(p[0]); dispatch_sync(hq,^{}); dispatch_release(hq); dispatch_release(cq); dispatch_release(cs); free(O); return na+nb; }
+  SRC=NULL; close(p[0]); dispatch_sync(hq,^{}); dispatch_release(hq); dispatch_release(cq); dispatch_release(cs); free(O); return na+nb; }
 // ---- the failed operation of a stopped channel with other channels' operations queued behind it (forced): a read of channel A waits
 // for data, two reads of channel B are queued behind it; data arrives, the readiness source fires and the stream's handler picks A's
 // read - it is held at its first step, the hold it takes on the descriptor entry, while this thread stops A; the operation then
 // fails inside the handler. The reads of channel B queued behind it must still be served.
 extern dispatch_queue_t _dispatch_verif_io_close_queue(dispatch_io_t channel);
-extern volatile void *_dispatch_verif_queue_state_addr(dispatch_queue_t dq);
 static volatile void *F_CQS; static atomic_int f_arm, f_held, f_go, f_skip;
-static void fcb(const volatile void *addr, unsigned size, int op, uint64_t o, uint64_t n, const char *func, int line){ (void)size;(void)o;(void)n;(void)line;
+static void fcb(const volatile void *addr, unsigned size, int op, uint64_t o, uint64_t n, const char *func, int line){ (void)size;(void)o;(void)n;(void)line; src_rec(addr,op,func);
   if(addr!=F_CQS || op!=3 || strcmp(func,"_dispatch_lane_suspend") || pthread_equal(pthread_self(),main_th)) return;
   if(atomic_load(&f_arm) && atomic_fetch_sub(&f_skip,1)<=0 && atomic_exchange(&f_arm,0)){ atomic_store(&f_held,1); for(int w=0; w<20000 && !atomic_load(&f_go); w++) usleep(50); } }
 static long forced_err(int it){ int p[2]; if(pipe(p)) return 0; g_it=it;
@@ -82,6 +93,7 @@ static long forced_err(int it){ int p[2]; if(pipe(p)) return 0; g_it=it;
   dispatch_io_read(A,0,8,hq,^(bool done, dispatch_data_t d, int e){ (void)e; if(d && dispatch_data_get_size(d) && !done) atomic_store(&a_part,1); if(done) atomic_store(&a_done,1); });
   for(int k=0;k<2;k++) dispatch_io_read(B,0,4,hq,^(bool done, dispatch_data_t d, int e){ (void)e; if(d) atomic_fetch_add(&b_bytes,(long)dispatch_data_get_size(d)); if(done) atomic_fetch_add(&b_done,1); });
   usleep(3000);                                       // all three reads are queued on the stream, the first one waits for data (readiness source armed)
+  src_watch(A);
   _dispatch_verif_atomic_cb=fcb; atomic_store(&f_arm,1);           // the next hold a worker takes on the entry is the handler, run by the fired source, picking A's read
   if(write(p[1],"0123",4)!=4) return 0;
   for(int w=0; w<4000 && !atomic_load(&f_held); w++) usleep(50);
@@ -94,7 +106,7 @@ static long forced_err(int it){ int p[2]; if(pipe(p)) return 0; g_it=it;
   if(!viol && !atomic_load(&a_done)) fail("the read of the stopped channel never completed: iteration",it,0,0);
   dispatch_io_close(B,0); dispatch_release(A); dispatch_release(B);
   for(int c=0;c<2 && !viol;c++) if(dispatch_semaphore_wait(cs,dispatch_time(DISPATCH_TIME_NOW,10ll*1000000000ll))) fail("a cleanup handler never ran (10 s) after the forced failure: iteration",it,0,0);
-  close(p[0]); dispatch_sync(hq,^{}); dispatch_release(hq); dispatch_release(cq); dispatch_release(cs); return 3; }
+  SRC=NULL; close(p[0]); dispatch_sync(hq,^{}); dispatch_release(hq); dispatch_release(cq); dispatch_release(cs); return 3; }
 // ---- two requests for the stream's handler (forced): A's first read completes with data while a second read of A is queued, so the
 // handler asks to be run again; the handler is held just before that (at the hold it takes for the delivery) while this thread stops
 // A - which removes the queued read - and schedules reads of B: the first of them finds the list empty and asks for the handler too.
@@ -108,7 +120,7 @@ static long forced_twice(int it){ int p[2]; if(pipe(p)) return 0; g_it=it;
   F_CQS=_dispatch_verif_queue_state_addr(_dispatch_verif_io_close_queue(A)); atomic_store(&f_arm,0); atomic_store(&f_held,0); atomic_store(&f_go,0);
   __block _Atomic int a_done=0, b_done=0;
   for(int k=0;k<2;k++) dispatch_io_read(A,0,4,hq,^(bool done, dispatch_data_t d, int e){ (void)d;(void)e; if(done) atomic_fetch_add(&a_done,1); });
-  usleep(3000);
+  usleep(3000); src_watch(A);
   atomic_store(&f_skip,1); _dispatch_verif_atomic_cb=fcb; atomic_store(&f_arm,1);     // skip the handler's own hold, stop at the one it takes for the delivery
   if(write(p[1],"0123",4)!=4) return 0;
   for(int w=0; w<4000 && !atomic_load(&f_held); w++) usleep(50);
@@ -121,9 +133,11 @@ static long forced_twice(int it){ int p[2]; if(pipe(p)) return 0; g_it=it;
   for(int w=0; w<3000 && atomic_load(&a_done)<2; w++) usleep(1000);
   dispatch_io_close(B,0); dispatch_release(A); dispatch_release(B);
   for(int c=0;c<2 && !viol;c++) if(dispatch_semaphore_wait(cs,dispatch_time(DISPATCH_TIME_NOW,10ll*1000000000ll))) fail("a cleanup handler never ran (10 s) after the forced double request: iteration",it,0,0);
-  close(p[0]); dispatch_sync(hq,^{}); dispatch_release(hq); dispatch_release(cq); dispatch_release(cs); return 5; }
+  SRC=NULL; close(p[0]); dispatch_sync(hq,^{}); dispatch_release(hq); dispatch_release(cq); dispatch_release(cs); return 5; }
 int main(int argc,char**argv){ seed=argc>1?strtoull(argv[1],0,0):1; int iters=argc>2?atoi(argv[2]):400; rs=seed;
   signal(SIGILL,on_crash); signal(SIGSEGV,on_crash); signal(SIGABRT,on_crash); signal(SIGBUS,on_crash); signal(SIGPIPE,SIG_IGN);
   main_th=pthread_self(); _dispatch_verif_atomic_cb=cb; long n=0; for(int i=0;i<iters && !viol;i++){ n+=iteration(i); if(i%100==0 && !viol && !getenv("REARM_SKIP_ERR")) n+=forced_err(i); if(i%100==(getenv("REARM_SKIP_ERR")?0:50) && !viol) n+=forced_twice(i); } _dispatch_verif_atomic_cb=0;
   if(viol){ printf("ORACLE VIOL seed=%llu %s\n",(unsigned long long)seed,vmsg); fflush(stdout); _exit(1); }
-  printf("ORACLE ok items=%ld holds=%ld\n",n,atomic_load(&holds)); fflush(stdout); _exit(0); }
+  printf("ORACLE ok items=%ld source_transitions=%lu\n",n,atomic_load(&ntl));
+  { unsigned long k=atomic_load(&ntl); if(k>MAXT) k=MAXT; for(unsigned long i=0;i<k;i++) printf("T %d %c\n",tlog[i].it,tlog[i].k); }
+  fflush(stdout); _exit(0); }
